@@ -37,7 +37,11 @@ pub fn dump_main(args: &[String]) {
             db
         }
     };
-    let q = queries_for(&texts);
+    let mut q = queries_for(&texts);
+    // long queries with punctuation against titles that share a long prefix: equally good matches whose order must not
+    // depend on which thread scored what before
+    q.push("** [ref]: http://r**<div>".to_string());
+    q.push("shared long prefix of several titles".to_string());
     let o = observe(&db, &texts, &q);
     println!("{}", serde_json::to_string(&o).unwrap());
 }
@@ -93,6 +97,10 @@ impl Check for C16 {
         lib.insert("tl2".into(), "# Beta title\n".into());
         lib.insert("tl3".into(), "# Gamma\n\n[x](tl1)\n\ninline [y](tl1) link\n".into());
         lib.insert("tl4".into(), "# [back](tl1)\n\n[z](tl1)\n".into());
+        for (i, tail) in ["", " 日本", " title: x", " and more", " x"].iter().enumerate() {
+            lib.insert(format!("hq{}", i), format!("# \\*\\* \\[ref\\]: http://r\\*\\*&lt;div&gt;{}\n", tail));
+            lib.insert(format!("hp{}", i), format!("# shared long prefix of several titles{}\n", tail));
+        }
         let dir = mon::scratch_dir("c16");
         let file = dir.join("lib.json");
         std::fs::write(&file, serde_json::to_string(&lib).unwrap()).unwrap();
